@@ -19,12 +19,14 @@ F = "FileHashStore."
 CASES = {
     "_check_string": [[None, "a"], ["", "a"], [" ", "a"], ["a b", "a"], ["abc", "a"], ["a\tb", "a"],
                       [" x", "a"], ["ab\n", "a"], ["日本", "a"], ["x y", "a"],
-                      ["doi:10.5063/F1", "a"]],
-    "_check_integer": [[None], [0], [1], [-5], [10], ["3"]],
+                      ["doi:10.5063/F1", "a"], ["a\u00a0b", "a"], ["a\u2003b", "a"], ["\x1c", "a"],
+                      ["a\x85b", "a"], ["../x", "a"], ["a/b", "a"]],
+    "_check_integer": [[None], [0], [1], [-5], [10], ["3"], [True], [2 ** 70]],
     "_clean_algorithm": [[x] for x in ["sha256", "SHA-256", "sha3_256", "SHA3-256", "sha-3-256",
                                        "md-5", "blake2b", "Blake2B", "sha_256", "sha3256", "",
                                        "sha1", "SHA_1", "SHA--1", "sha512-", "SHA3_512", "md2",
-                                       "shaı256", "ẞhA256"]],
+                                       "shaı256", "ẞhA256", "SHA 256", "sha-224", "SHA3-224",
+                                       "shake_128", "Sha_3_256", "blake2s", "sha512_256"]],
     "_check_arg_format_id": [[None, "m"], ["", "m"], [" ", "m"], ["x", "m"], [" x ", "m"]],
     "_shard": [[x] for x in ["abcdef", "0d555ed77052d7e166017f779cbc193357c3a5006ee8b8457230bcf7abcef65e",
                              "ab", "", "abcdefghij"]],
@@ -32,6 +34,9 @@ CASES = {
                                            [None, "abc", None], [None, None, "md5"],
                                            ["sha256", "abc", "SHA-1"], ["md2", None, None],
                                            [None, "a b", "md5"]],
+    "_refine_algorithm_list": [[None, None], ["sha224", None], [None, "sha3_256"], ["md5", "md5"],
+                               ["sha224", "blake2b"], ["SHA-224", None], ["md2", None],
+                               [None, "sha256"], ["blake2s", "sha224"]],
 }
 CONFIGS = [(3, 2, "SHA-256"), (1, 1, "MD5"), (2, 5, "SHA-384"), (5, 4, "SHA-512")]
 ALG = {"MD5": "md5", "SHA-1": "sha1", "SHA-256": "sha256", "SHA-384": "sha384", "SHA-512": "sha512"}
@@ -59,7 +64,12 @@ def concretize(ctx, v):
         t = _eval(ctx, v.tag)
         return {T_NONE: None, T_STR: _eval(ctx, v.s), T_INT: _eval(ctx, v.i)}.get(t, "<other>")
     if isinstance(v, VList):
-        return [concretize(ctx, x) for g, x in zip(v.guards, v.items) if _eval(ctx, g)]
+        items = [concretize(ctx, x) for g, x in zip(v.guards, v.items) if _eval(ctx, g)]
+        if v.kind in ("set", "frozenset"):      # unordered: compared as the sorted set of members
+            if len(set(items)) != len(items):
+                return ["<set with a duplicate>"] + items
+            return ["set"] + sorted(items)
+        return items
     if isinstance(v, VTuple):
         return [concretize(ctx, x) for x in v.items]
     return repr(v)
